@@ -110,25 +110,41 @@ structure Oracle where
 def clamp? (x lo hi : Nat) : Option Nat :=
   if lo > hi then none else some (if x < lo then lo else if x > hi then hi else x)
 
-/-- `set_cwnd(newly_acked)` -/
-def setCwnd (s : State) (newlyAcked : Nat) (o : Oracle) : Option State :=
-  let maxInflight := sat32 o.maxInflight
-  let acked32 := newlyAcked % (u32Max + 1)                    -- `newly_acked as u32`
-  let minw := minimumWindow s.mds
-  let cwnd? : Option Nat :=
-    if o.filledPipe then
-      let c := sat32 (s.cwnd + acked32)                       -- `cwnd.saturating_add(..)`
-      some (if c ≥ maxInflight then maxInflight else c)
-    else if s.cwnd < maxInflight || o.smallDelivered then
-      if s.cwnd + acked32 > u32Max then none                  -- `cwnd += newly_acked as u32`: unchecked `+=`
-      else some (s.cwnd + acked32)
-    else some s.cwnd
-  match cwnd? with
+/-- Which form the growing write in the not-filled-pipe branch of `set_cwnd` has in /repo
+    (bridged against the source text: `Bridge.Congestion.bbr_growth_variant_eq`):
+      `false`  `cwnd += newly_acked as u32;`                          unchecked u32 addition
+      `true`   `cwnd = cwnd.saturating_add(newly_acked as u32);`
+    All definitions below take the variant as a parameter; this constant is the one the driver and
+    the "code as it is" theorems use. -/
+def saturatingGrowth : Bool := false   -- AFTER-FIX: true
+
+/-- `set_cwnd`: the window before the ProbeRTT bound and the final clamp. `newly_acked as u32` truncates;
+    the filled-pipe branch uses `saturating_add`; the other growing branch is the write site selected by
+    `sat` (unchecked `+=`: `none` when it overflows — a debug build panics, a release build wraps) -/
+def grownCwnd (sat : Bool) (s : State) (newlyAcked : Nat) (o : Oracle) : Option Nat :=
+  if o.filledPipe then
+    some (if sat32 (s.cwnd + newlyAcked % (u32Max + 1)) ≥ sat32 o.maxInflight then sat32 o.maxInflight
+          else sat32 (s.cwnd + newlyAcked % (u32Max + 1)))
+  else if s.cwnd < sat32 o.maxInflight || o.smallDelivered then
+    if sat then some (sat32 (s.cwnd + newlyAcked % (u32Max + 1)))
+    else if s.cwnd + newlyAcked % (u32Max + 1) > u32Max then none
+    else some (s.cwnd + newlyAcked % (u32Max + 1))
+  else some s.cwnd
+
+/-- `if self.state.is_probing_rtt() { cwnd = cwnd.min(self.probe_rtt_cwnd()) }` -/
+def boundForProbeRtt (s : State) (c : Nat) (o : Oracle) : Nat :=
+  if s.probeRtt then min c (max (sat32 o.probeRttCwndRaw) (minimumWindow s.mds)) else c
+
+/-- `bound_cwnd_for_model()`: `cap.min(inflight_lo).max(minimum_window)` -/
+def boundCwndForModel (s : State) (o : Oracle) : Nat := max (sat32 o.capRaw) (minimumWindow s.mds)
+
+/-- `set_cwnd(newly_acked)`: the single write is
+    `self.cwnd = cwnd.clamp(minimum_window(mds), self.bound_cwnd_for_model())` -/
+def setCwnd (sat : Bool) (s : State) (newlyAcked : Nat) (o : Oracle) : Option State :=
+  match grownCwnd sat s newlyAcked o with
   | none => none
   | some c =>
-    let c := if s.probeRtt then min c (max (sat32 o.probeRttCwndRaw) minw) else c
-    let bound := max (sat32 o.capRaw) minw                    -- `bound_cwnd_for_model()`
-    match clamp? c minw bound with
+    match clamp? (boundForProbeRtt s c o) (minimumWindow s.mds) (boundCwndForModel s o) with
     | some c => some { s with cwnd := c }
     | none => none
 
@@ -137,10 +153,16 @@ def saveCwnd (s : State) : State := { s with priorCwnd := max s.priorCwnd s.cwnd
 /-- `restore_cwnd` -/
 def restoreCwnd (s : State) : State := { s with cwnd := max s.cwnd s.priorCwnd }
 
-/-- the part of `check_probe_rtt` that touches the modelled fields -/
-def checkProbeRtt (s : State) (o : Oracle) : State :=
-  let s := if !s.probeRtt && o.enterProbeRtt then saveCwnd { s with probeRtt := true } else s
+/-- `check_probe_rtt`, first half: enter ProbeRTT (`save_cwnd`) -/
+def enterProbeRtt (s : State) (o : Oracle) : State :=
+  if !s.probeRtt && o.enterProbeRtt then saveCwnd { s with probeRtt := true } else s
+
+/-- `check_probe_rtt`, second half: `if probe_rtt_state.is_done(now) { self.exit_probe_rtt(..) }` (`restore_cwnd`) -/
+def exitProbeRtt (s : State) (o : Oracle) : State :=
   if s.probeRtt && o.exitProbeRtt then { restoreCwnd s with probeRtt := false } else s
+
+/-- the part of `check_probe_rtt` that touches the modelled fields -/
+def checkProbeRtt (s : State) (o : Oracle) : State := exitProbeRtt (enterProbeRtt s o) o
 
 def onPacketSent (s : State) (bytes : Nat) : Option State :=
   if bytes = 0 then some s
@@ -148,13 +170,15 @@ def onPacketSent (s : State) (bytes : Nat) : Option State :=
   else if s.inflight + bytes > u32Max then none
   else some { s with inflight := s.inflight + bytes, recovery := clearFastRetransmission s.recovery }
 
-def onAck (s : State) (timeSent bytes : Nat) (o : Oracle) : Option State :=
+/-- `on_ack`: `bytes_in_flight.try_sub`, `recovery_state.on_ack` -/
+def ackBookkeeping (s : State) (timeSent bytes : Nat) : State :=
+  { s with inflight := s.inflight - bytes, recovery := recoveryOnAck s.recovery timeSent }
+
+def onAck (sat : Bool) (s : State) (timeSent bytes : Nat) (o : Oracle) : Option State :=
   if bytes > u32Max then none
   else if s.inflight < bytes then none
-  else
-    let s := { s with inflight := s.inflight - bytes, recovery := recoveryOnAck s.recovery timeSent }
-    let s := checkProbeRtt s o
-    if o.update then setCwnd s bytes o else some s
+  else if o.update then setCwnd sat (checkProbeRtt (ackBookkeeping s timeSent bytes) o) bytes o
+  else some (checkProbeRtt (ackBookkeeping s timeSent bytes) o)
 
 def onPacketLost (s : State) (bytes now : Nat) : Option State :=
   if bytes = 0 then none                         -- `debug_assert!(lost_bytes > 0)`
@@ -183,21 +207,22 @@ inductive Op
   | discard (bytes : Nat)
   deriving Repr, DecidableEq
 
-def step (s : State) (op : Op) (o : Oracle) : Option State :=
+/-- one trait call for the write-site variant `sat`; `none` = the real (debug-assertions) build panics -/
+def step (sat : Bool) (s : State) (op : Op) (o : Oracle) : Option State :=
   match op with
   | .sent b _ _ => onPacketSent s b
   | .rtt _ => some s                              -- `on_rtt_update` only initialises the pacing rate
-  | .ack ts b _ => onAck s ts b o
+  | .ack ts b _ => onAck sat s ts b o
   | .lost b _ now => onPacketLost s b now
   | .ecn now => onExplicitCongestion s now
   | .mtu mds => onMtuUpdate s mds o
   | .discard b => onPacketDiscarded s b
 
-def run (s : State) : List (Op × Oracle) → Option State
+def run (sat : Bool) (s : State) : List (Op × Oracle) → Option State
   | [] => some s
   | (op, o) :: rest =>
-    match step s op o with
-    | some s' => run s' rest
+    match step sat s op o with
+    | some s' => run sat s' rest
     | none => none
 
 structure Obs where
@@ -227,16 +252,16 @@ def candidates (_s : State) (op : Op) (obs : Obs) : List Oracle :=
           probeRttCwndRaw := u32Max, capRaw := W } ]
   | _ => [{}]
 
-def admit (s : State) (op : Op) (obs : Obs) : Option (Oracle × State) :=
+def accept (s : State) (op : Op) (obs : Obs) : Option (Oracle × State) :=
   (candidates s op obs).findSome? fun o =>
-    match step s op o with
+    match step saturatingGrowth s op o with
     | some s' => if observe s' = obs then some (o, s') else none
     | none => none
 
 /-- the real code panicked: admitted iff some candidate oracle makes the skeleton panic
     (only `set_cwnd`'s unchecked `+=` depends on the oracle) -/
-def admitPanic (s : State) (op : Op) : Bool :=
-  (step s op {}).isNone ||
-  (step s op { update := true, smallDelivered := true, probeRttCwndRaw := u32Max, capRaw := u32Max }).isNone
+def acceptPanic (s : State) (op : Op) : Bool :=
+  (step saturatingGrowth s op {}).isNone ||
+  (step saturatingGrowth s op { update := true, smallDelivered := true, probeRttCwndRaw := u32Max, capRaw := u32Max }).isNone
 
 end Quic.Recovery.Bbr
